@@ -96,6 +96,12 @@ var corpus = []corpusCase{
 	fixed("repaired: inline fragment on User next to a spread of a fragment named User", &doc{
 		ops:   []*opDef{q("K7", fld("node", fld("__typename"), on("User", fld("name")), sp("User")))},
 		frags: []*fragDef{{name: "User", cond: "User", sels: []*sel{fld("login")}}}}),
+	fixed("a fragment whose name begins with two underscores (field F__, type __FFragment), next to a fragment F", &doc{
+		ops: []*opDef{q("K10", fld("node", fld("__typename"), sp("__F"), sp("F")))},
+		frags: []*fragDef{{name: "__F", cond: "User", sels: []*sel{fld("login")}}, {name: "F", cond: "User", sels: []*sel{fld("name")}}}}),
+	fixed("a fragment named _ (field _)", &doc{
+		ops:   []*opDef{q("K11", fld("node", fld("__typename"), sp("_")))},
+		frags: []*fragDef{{name: "_", cond: "User", sels: []*sel{fld("login")}}}}),
 	{note: "repaired: enums named string and json next to a constant clash across enums (A.B_C, AB.C)", build: func() (*schemaDef, *doc, string) {
 		s := fixedSchema()
 		s.types = append([]*typeDef{
